@@ -165,10 +165,13 @@ def _odd_run_end(t, ch):
 
 
 def f34(n):
-    """a lone closing brace at the end of a brace inline's content, or a lone opening brace right before a brace element"""
+    """a lone closing brace at the end of a brace inline's content or right after a brace element, or a lone opening brace
+    right before a brace element"""
     ks = n[2]
     for i, k in enumerate(ks):
         if isinstance(k, str):
+            if i > 0 and not isinstance(ks[i - 1], str) and ks[i - 1][0] in BRACE_ELEMS and (len(k) - len(k.lstrip('}'))) % 2 == 1:
+                return True
             if n[0] in BRACE_INLINES and i == len(ks) - 1 and _odd_run_end(k, '}'):
                 return True
             if i + 1 < len(ks) and not isinstance(ks[i + 1], str) and ks[i + 1][0] in BRACE_ELEMS and _odd_run_end(k, '{'):
